@@ -16,6 +16,9 @@ CHECKS = {
  "C02": dict(cat="exploration", engine="E3-enumeration", tech=TECH_ENUM,
    text="a 27-row table with all combinations of NULL/values; 143 condition units (12 atoms x renderings: raw string, placeholder, two-argument, map, struct, clause expression, named argument; AND/OR units in 8 keyword spellings incl. lower case, tab, newline, ')OR('; redundant parentheses; grouped sub-builders; NOT; depth-3 units; primary-key forms; empty map / zero struct); every chain of 1-2 Where/Or/Not calls over all units, 3 calls over 13 (quick) / 41 (thorough) class representatives, plus inline conditions and model keys x Find/Count/Update/Delete; oracle: a reference evaluator with SQL three-valued logic over an in-memory copy of the table, compared as id sets (no SQL text inspected)",
    note="SQLite; writes run in a transaction that is rolled back and verified; Not over an all-raw AND group follows gorm's pinned reading NOT (x AND y); 2 open known findings"),
+ "C03": dict(cat="exploration", engine="E3-enumeration", tech=TECH_ENUM,
+   text="model types built with reflect.StructOf from a grammar: 4 key configurations (auto-increment ID, string key, composite, primaryKey on a non-ID field) x 64 field kinds (all int/uint/float widths, bool, string, []byte, time, pointers, sql.Null*, custom Scanner/Valuer types, serializer json/gob/unixtime, embedded with/without prefix and pointer, column rename, literal and DB-side defaults, autoCreateTime/autoUpdateTime variants) with 2-6 boundary values each; <=1 field under test (quick, 520 type x dialector combinations) or all kind pairs (thorough); create shapes: pointer, &[]T, []*T, &[]*T with every zero/explicit key pattern, CreateInBatches(1,2), map, &map, []map, &[]map; read shapes: First/Take/Find into struct, slices, map, []map; with and without RETURNING; oracle: value equality after kind-specific normalisation, every in-memory key equals the key of the row that stores that record (found by a unique marker), DB-side defaults present",
+   note="SQLite; values representable in the column type; key back-fill not required for maps; 6 open known findings"),
  "C04": dict(cat="fault_enumeration", engine="E1-choice-tree", tech=TECH_FAULT,
    text="1417 canonical programs = all trees of nested Transaction blocks (<=4 blocks, depth <=4; write, children with reads between, write, outcome nil/error/panic; parent propagates or swallows/recovers) x 8 configurations {PrepareStmt, DisableNestedTransaction, SkipDefaultTransaction} x 2 dialectors (shipped SQLite, strict-savepoint wrapper): fault-free plus every single driver fault at BEGIN/COMMIT/SAVEPOINT/statement (quick), every pair (thorough); manual API: explicit-state BFS over sequences <=5/6 of write/SavePoint/RollbackTo/nested Transaction/Commit/Rollback with canonical state = table + save-point stack, every transition also with faults; oracle: snapshot-stack reference model, errors.Is / identical panic value, no leaked transaction/connection, follow-up write succeeds",
    note="SQLite; faults on ROLLBACK / ROLLBACK TO never injected; 1 open known finding (shipped SQLite dialector swallows SAVEPOINT errors), 1 fixed"),
@@ -58,6 +61,9 @@ CHECKS = {
  "C19": dict(cat="exploration", engine="E3-enumeration", tech=TECH_ENUM,
    text="every program of the C01 grammar (<=1-2 calls quick, <=3 thorough; reads, writes, upserts, soft deletes, raw SQL) is run four ways from identical handles and data: Session{DryRun}, Config.DryRun, ToSQL, and for real behind the recording driver; DryRun runs must leave no prepare/exec/query in the driver log (ToSQL no driver call at all), all three expose the same SQL+values, and the real run's main statement text and converted arguments equal them",
    note="counter clock reset before every run; Save and FirstOrCreate (several main statements) outside the alphabet"),
+ "C20": dict(cat="exploration", engine="E3-enumeration", tech=TECH_ENUM,
+   text="histories migrate(v1) -> insert rows -> migrate(v1) -> migrate(v2) -> read old rows through v2, insert and read v2 records -> migrate(v2) again, with v1 = key x field kind x tag variant {none,index,uniqueIndex,unique,check,not null,size…} and v2 = v1 + {tag added to a field, added field of every kind x tag}; oracle: the driver log of a re-migration holds no statement starting with CREATE/ALTER/DROP, typed dumps of the common columns are equal before/after, added indexes/unique constraints exist (PRAGMA index_list), added checks are enforced, v2 records round-trip (C03 field oracle)",
+   note="SQLite dialect only; tag combinations whose spurious ALTER is caused by the SQLite driver's column parsing (parenthesised DB-side defaults) or refused by SQLite itself are removed from the alphabet and listed in the evidence; 1 open known finding"),
  "C14": dict(cat="model_checking", engine="E2-scheduler", tech=TECH_SCHED,
    text="the real prepare_stmt.go/gorm.go (instrumented at build time by overlay: sync -> scheduling shim, go/channel statements hooked) is explored under a cooperative scheduler: every interleaving of 2 threads (<=2-3 preemptions quick, <=4 thorough), 3 threads (<=2/3) and 4 threads (<=2, thorough) of Exec/Query/Transaction/Reset/Close/first-use-Session programs, with Prepare failures and ErrBadConn as environment choices; oracle per schedule: no deadlock/panic, results equal the sequential run, <=1 cache-level prepare per text and generation, no leaked driver statement after the final Close",
    note="database/sql and the fake driver are atomic steps; statement.go's per-statement sync.Map is not a scheduling point; data races are not decided by this check (see C07)"),
